@@ -25,6 +25,33 @@ def _get_serializer(version):
         ".serializer_%s" % version, "modelx.serialize")
 
 
+_OLD_POSTFIX = "_BAK_OLD"
+
+
+def _remove_path(path: pathlib.Path):
+    if path.is_dir():
+        shutil.rmtree(path)
+    elif path.exists():
+        path.unlink()
+
+
+def _restore_backups(base_path: pathlib.Path, max_backups):
+    """Undo _increment_backups after a failed save"""
+    try:
+        _remove_path(base_path)     # partial output
+        for nth in range(1, max_backups + 1):
+            backup_path = pathlib.Path(str(base_path) + "_BAK" + str(nth))
+            if backup_path.exists():
+                postfix = "_BAK" + str(nth - 1) if nth > 1 else ""
+                backup_path.rename(pathlib.Path(str(base_path) + postfix))
+        old_path = pathlib.Path(str(base_path) + _OLD_POSTFIX)
+        if old_path.exists():
+            postfix = "_BAK" + str(max_backups) if max_backups else ""
+            old_path.rename(pathlib.Path(str(base_path) + postfix))
+    except OSError:
+        pass    # Report the error that made the save fail
+
+
 def _increment_backups(
         model, base_path: pathlib.Path,
         max_backups=DEFAULT_MAX_BACKUPS, nth=0):
@@ -33,12 +60,11 @@ def _increment_backups(
     backup_path = pathlib.Path(str(base_path) + postfix)
     if backup_path.exists():
         if nth == max_backups:
-            if backup_path.is_dir():
-                shutil.rmtree(backup_path)
-            elif backup_path.is_file():
-                backup_path.unlink()
-            else:
-                raise ValueError("cannot remove '%s'" % str(backup_path))
+            # Set the oldest copy aside instead of removing it:
+            # it is removed only after the new copy is completely written
+            old_path = pathlib.Path(str(base_path) + _OLD_POSTFIX)
+            _remove_path(old_path)
+            backup_path.rename(old_path)
         else:
             _increment_backups(model, base_path, max_backups, nth + 1)
             next_backup = pathlib.Path(str(base_path) + "_BAK" + str(nth + 1))
@@ -74,12 +100,19 @@ def write_model(system, model, model_path,
     _increment_backups(model, root, max_backups)
 
     serializer = _get_serializer(version)
-    serializer.ModelWriter(system, model, root,
-                           is_zip=is_zip,
-                           log_input=log_input,
-                           compression=compression,
-                           compresslevel=compresslevel
-                           ).write_model()
+    try:
+        serializer.ModelWriter(system, model, root,
+                               is_zip=is_zip,
+                               log_input=log_input,
+                               compression=compression,
+                               compresslevel=compresslevel
+                               ).write_model()
+    except BaseException:
+        # Remove the partial output and put the earlier copies back
+        _restore_backups(root, max_backups)
+        raise
+    else:
+        _remove_path(pathlib.Path(str(root) + _OLD_POSTFIX))
 
     if model.path != root:
         model.path = root
